@@ -1614,9 +1614,18 @@ class Interp(object):
         frame.vars[node.name] = self.make_func(node, frame.module, frame, None, qn)
 
     def exec_ClassDef(self, node, frame):
-        if node.bases or node.decorator_list or node.keywords:
-            raise EngineError('nested class definition with bases/decorators')
-        ci = ClassInfo(node.name, frame.module, node, [self.program.builtin_classes['object']])
+        if node.decorator_list or node.keywords:
+            raise EngineError('nested class definition with decorators / keywords')
+        bases = []
+        for b in node.bases:
+            bv = self.eval(b, frame)
+            if isinstance(bv, ClassInfo):
+                bases.append(bv)
+            elif isinstance(bv, TypeMarker) and bv.name == 'object':
+                bases.append(self.program.builtin_classes['object'])
+            else:
+                raise EngineError('base class %s of local class %s' % (ast.unparse(b), node.name))
+        ci = ClassInfo(node.name, frame.module, node, bases or [self.program.builtin_classes['object']])
         ci.closure = frame          # methods of a local class see the enclosing function's variables
         frame.vars[node.name] = ci
 
@@ -2077,8 +2086,12 @@ def _concrete_fmt_args(b):
         return True
     if isinstance(b, tuple):
         return all(isinstance(x, (str, int)) for x in b)
+    if isinstance(b, PyDict):
+        return all(isinstance(k, str) and isinstance(x, (str, int)) for k, x in b.items.items())
     return False
 
 
 def _py_fmt_args(b):
+    if isinstance(b, PyDict):
+        return dict(b.items)
     return b
